@@ -439,6 +439,9 @@ func (in *Interp) RunPath(entry *ssa.Function, item WorkItem, e *Explorer) (res 
 			}()
 			in.callFunction(nil, entry, in.entryArgs(entry), nil)
 		}()
+		if len(in.pendingGo) > 0 {
+			in.unsupported("goroutines that are never joined through sync.WaitGroup.Wait")
+		}
 		if in.testFailed {
 			panic(&pathAbort{kind: "violation", msg: "test-failed: " + in.testMsg})
 		}
